@@ -21,7 +21,7 @@ RULE = (
     "(screen hash, replacement kind, model, scorer, n_chunks, batch); non-trivial = >=1 masked row and >=1 observed row"
 )
 ASSUMPTIONS = ["observed values exactly 0 or 1 are outside the interaction model's transform (logit gives +-inf) and are not generated for it", "both members of a pair use the same seed and the same global numpy seed so that only masked values differ"]
-REQUIRED = {"refused_deliveries_of_results": {"quick": 200, "thorough": 2500}, "own_parameter_blocks_compared": {"quick": 250, "thorough": 3000}, "single_observation_changes": {"quick": 300, "thorough": 4000}, "single_observation_changes_of_a_cell_lines_only_experiment": {"quick": 30, "thorough": 400}, "refusals_of_tiny_negative_values": {"quick": 150, "thorough": 2000}, "pairs_with_non_default_model_switches": {"quick": 80, "thorough": 1000}, "refusals_checked_for_side_effects": {"quick": 200, "thorough": 2500}, "training_sets_with_values_above_one": {"quick": 40, "thorough": 500}, "two_batch_histories": {"quick": 100, "thorough": 1200}, "cli_pairs": {"quick": 6, "thorough": 40}, "cli_replacement_nan": {"quick": 1, "thorough": 6}, "pairs_compared": {"quick": 250, "thorough": 3000}, "artefacts_compared": {"quick": 1200, "thorough": 15000}, "training_set_checks": {"quick": 250, "thorough": 3000}, "refusals_checked": {"quick": 2000, "thorough": 25000}}
+REQUIRED = {"pairs_with_an_oracle_model_in_the_same_process": {"quick": 100, "thorough": 1200}, "refused_deliveries_of_results": {"quick": 200, "thorough": 2500}, "own_parameter_blocks_compared": {"quick": 250, "thorough": 3000}, "single_observation_changes": {"quick": 300, "thorough": 4000}, "single_observation_changes_of_a_cell_lines_only_experiment": {"quick": 30, "thorough": 400}, "refusals_of_tiny_negative_values": {"quick": 150, "thorough": 2000}, "pairs_with_non_default_model_switches": {"quick": 80, "thorough": 1000}, "refusals_checked_for_side_effects": {"quick": 200, "thorough": 2500}, "training_sets_with_values_above_one": {"quick": 40, "thorough": 500}, "two_batch_histories": {"quick": 100, "thorough": 1200}, "cli_pairs": {"quick": 6, "thorough": 40}, "cli_replacement_nan": {"quick": 1, "thorough": 6}, "pairs_compared": {"quick": 250, "thorough": 3000}, "artefacts_compared": {"quick": 1200, "thorough": 15000}, "training_set_checks": {"quick": 250, "thorough": 3000}, "refusals_checked": {"quick": 2000, "thorough": 25000}}
 N_PAIRS = {"quick": 640, "thorough": 6400}
 
 
@@ -77,6 +77,8 @@ def check_training_set(rec, model_name, model, data, w):
             ref[k_] = float(np.mean(v_))
         got_l = {(int(k_[0]), int(k_[1])): float(v_) for k_, v_ in model.single_effect_lookup.items()}
         ok = set(ref) <= set(got_l) and all(abs(got_l[k_] - ref[k_]) <= 1e-12 * (1 + abs(ref[k_])) for k_ in ref)
+        extra = sorted(k_ for k_ in got_l if k_ not in ref and k_[1] != -1)
+        rec.check(not extra, "C04/SparseDrugComboInteraction/single-effect-table-has-unobserved-entries", lambda: "the model's single-agent effect table lists %r, for which the data handed to the model holds no single-agent experiment" % (extra[:6],), w)
         rec.check(ok, "C04/SparseDrugComboInteraction/single-effect-table-differs", lambda: "single-agent effect table %r, the observed single-agent experiments give %r" % (dict(list(got_l.items())[:5]), dict(list(ref.items())[:5])), w)
 
 
@@ -271,6 +273,20 @@ def run_shard(rec, tier, seed, shard, nshards):
             cfg["model_kwargs"] = {k_: bool(rng.random() < 0.5) for k_ in names_}
             rec.count("pairs_with_non_default_model_switches")
         w = {"model": mname, "replacement": kind, "cfg": {k: v for k, v in cfg.items()}, "rows": int(A.size), "masked_rows": int((~A.observation_mask).sum()), "plates": {str(p): [int((kw["plate_names"] == p).sum()), bool(kw["observation_mask"][kw["plate_names"] == p][0])] for p in np.unique(kw["plate_names"])}}
+        if pi % 2 == 0:
+            # another model of the same class lives in this process and has seen the WHOLE screen with other values
+            # behind the mask (an oracle for a retrospective comparison): nothing of it reaches the models trained on
+            # the observed part
+            try:
+                n_ = len(kw["observations"])
+                oracle_vals = np.where(kw["observation_mask"], kw["observations"], rng.uniform(0.05, 0.95, size=n_))
+                full_ = Screen(**dict(kw, observations=oracle_vals, observation_mask=np.ones(n_, dtype=bool)))
+                m0 = MODELS[mname](experiment_space=ExperimentSpace.from_screen(full_), n_embedding_dimensions=1)
+                m0.add_observations(full_)
+                run_shard.__dict__["oracle_model_kept_alive"] = m0
+                rec.count("pairs_with_an_oracle_model_in_the_same_process")
+            except Exception as e:
+                rec.did_not_return("oracle-model", e)
         trA, trB = {}, {}
         try:
             artA = pipeline(A, mname, cfg, trA)
